@@ -96,15 +96,54 @@ def run(cx):
             eb = R.body(fn)
             for loc, lab in call_sites(eb, ctor):
                 inst.site(eb, loc, ctor)
-                if "arg1.flush_alloc" not in show(eb.call_expr(eb.node_at(loc))):
-                    inst.violation(eb.path, ctor, "%s is not given the connection's flush_alloc" % ctor, at=eb.span_at(loc))
+                t = eb.node_at(loc)
+                idx = 2 if ctor.startswith("Data") else 2
+                # the credit operand: (frame_window_base, packet_window_base, credit, cb) / (now, frame_queue, credit, cb)
+                op = t["args"][2]
+                cur = show(eb.operand_expr(op))
+                fresh = cur == "arg1.flush_alloc"
+                if not fresh and re.fullmatch(r"arg\d+", cur):
+                    # handed in by the caller: it must be read from self.flush_alloc *after* the preceding emitter ran
+                    # (one snapshot shared by the ack and the data emitter lets a flush spend its credit twice)
+                    argn = int(cur[3:])
+                    ef = R.body(HC + "emit_frames")
+                    fresh = True
+                    ncalls = 0
+                    for cl, ct in ef.calls(fn.split("::")[-1] if False else "HalfConnection::" + fn.split("::")[-1]):
+                        ncalls += 1
+                        a = ct["args"][argn - 1]
+                        if show(ef.operand_expr(a)) != "arg1.flush_alloc" or a["k"] not in ("copy", "move"):
+                            fresh = False
+                            continue
+                        l0 = a["pl"]["l"]
+                        # chase plain copies back to the statement that actually reads the field
+                        hops = 0
+                        while hops < 8 and ef.is_single_def(l0):
+                            dl0, dk0, dn0 = ef.defs[l0][0]
+                            rv0 = dn0.get("rv", {}) if dk0 == "assign" else {}
+                            if rv0.get("k") == "use" and rv0["op"]["k"] in ("copy", "move") and not rv0["op"]["pl"]["p"]:
+                                l0 = rv0["op"]["pl"]["l"]
+                                hops += 1
+                            else:
+                                break
+                        defs = ef.defs.get(l0, [])
+                        prev = [pl for pl, pt in ef.calls("re:HalfConnection::emit_(ack|data)_frames$") if ef.reach_from_entry_avoiding(cl, [pl]) is None and pl != cl]
+                        for dl, dk, dn in defs:
+                            for pl in prev:
+                                if ef.reach_from_entry_avoiding(dl, [pl]) is not None:
+                                    fresh = False
+                    if ncalls == 0:
+                        fresh = False
+                if not fresh:
+                    inst.violation(eb.path, ctor, "%s is not given the connection's current flush_alloc (read after the preceding emitter has spent its share)" % ctor, at=eb.span_at(loc))
 
     with cx.instance("C13.c", "T7 SHAPE", "fill_flush_alloc: flush_alloc = min(saturating_add(flush_alloc, round(rate*dt)), round(rate*rtt))", floor=1) as inst:
         b = R.body(HC + "fill_flush_alloc")
         ws = [(l, node) for l, node, ps in b.field_writes(r"arg1\.flush_alloc")]
         want = "Ord::min(f64::round(Option::unwrap_or(SendRateComp::rtt_s(arg1.send_rate_comp),0)*SendRateComp::send_rate(arg1.send_rate_comp)),isize::saturating_add(arg1.flush_alloc,f64::round(Duration::as_secs_f64(Instant::sub(arg2,arg1.time_last_flushed@Some.0))*SendRateComp::send_rate(arg1.send_rate_comp))))"
         for l, node in ws:
-            got = acnf(b.rvalue_expr(node["rv"]))
+            from rules import canon_value
+            got = acnf(canon_value(cx, b, b.rvalue_expr(node["rv"])))
             inst.site(b, l, "flush_alloc = " + got[:100])
             if got != want:
                 inst.violation(b.path, "flush_alloc refill", "credit refill is `%s`, expected `%s`" % (got, want), at=b.span_at(l))
@@ -124,7 +163,8 @@ def run(cx):
             if not b.path.startswith("half_connection::"):
                 continue
             for l, node, ps in b.field_writes(r"arg1\.flush_alloc"):
-                v = show(b.rvalue_expr(node["rv"])) if node["k"] == "assign" else show(b.call_expr(node))
+                from rules import canon_value
+                v = show(canon_value(cx, b, b.rvalue_expr(node["rv"]) if node["k"] == "assign" else b.call_expr(node)))
                 inst.site(b, l, "%s: flush_alloc = %s" % (b.path.split("::")[-1], v[:70]))
                 if b.path.endswith("::new"):
                     continue
@@ -143,6 +183,9 @@ def run(cx):
     # each step refill for the whole time since the first one)
     from props.shared import half_connection_clock
     half_connection_clock(cx, "C13.f")
+    # the one rate value that never passes the ceiling clamp is the initial one
+    from props.C14 import inst_recv_set
+    inst_recv_set(cx, "C13.g")
 
 
 def ceiling_clamp(cx, iid):
